@@ -136,7 +136,7 @@ class C05(Check):
             for j in range(rng.choice([1, 2, 3, 4])):
                 mr = rng.choice([0, 0, 1, 2])
                 scripts = [rng.choice(["imm", "slow"] if benign else SCRIPTS) for _ in range(mr + 1)]
-                reqs.append({"did": 0x1000 * (c + 1) + j, "scripts": scripts, "max_retry": mr, "think": rng.choice([0.0, 0.0, 0.01, 0.3])})
+                reqs.append({"did": 0x1000 * (c + 1) + j, "scripts": scripts, "max_retry": mr, "think": rng.choice([0.0, 0.0, 0.01, 0.3]), "raw": rng.random() < 0.35})
             callers.append({"start": rng.choice([0.0, 0.0, 0.001, 0.05, 0.5, 1.1, 2.0]), "reqs": reqs})
         plan["callers"] = callers
         plan["tp"] = rng.choice([None, 0.05, 0.2, 1.0])
@@ -299,7 +299,11 @@ class C05(Check):
                     out: dict[str, Any] = {"caller": k, "did": did}
                     results.append(out)
                     try:
-                        resp_ = await ecu.request(service.ReadDataByIdentifierRequest(did), UDSRequestConfig(max_retry=r["max_retry"]))
+                        if r.get("raw"):
+                            # scanner style: the same PDU wrapped in a RawRequest (ECU.send_raw)
+                            resp_ = await ecu.send_raw(bytes([0x22, did >> 8, did & 0xFF]), UDSRequestConfig(max_retry=r["max_retry"]))
+                        else:
+                            resp_ = await ecu.request(service.ReadDataByIdentifierRequest(did), UDSRequestConfig(max_retry=r["max_retry"]))
                         out["out"] = "return"
                         out["pdu"] = resp_.pdu
                     except asyncio.CancelledError:
